@@ -372,7 +372,7 @@ func (c *Ctx) prfPlusRules(r *Report, prefix string) {
 		for _, e := range blockPhi.Edges {
 			if sl, ok := e.(*ssa.Slice); ok && sl.X == ssa.Value(sum) && sl.High == nil && sl.Low != nil {
 				want := f.SliceLen(sum).add(f.LFOf(size), -1)
-				if f.LFOf(sl.Low).key() == want.key() {
+				if f.LFOf(sl.Low).key() == want.key() || f.EqualAt(f.LFOf(sl.Low), want, sl.Block()) {
 					okB = true
 				}
 			}
